@@ -130,7 +130,8 @@ PLANS['C04'] = dict(
 PLANS['C07'] = dict(
     engine='registry', level='exploration', jobs=lambda tier: both(tier, (16, 1000), (16, 10000)),
     minimums=lambda t: {'subscription_queries': 8000, 'order_pairs': 3000, 'results_from_2plus_registries': 100,
-                        'results_with_2plus_keys_in_one_registry': 200, 'unsubscribe_value': 100, 'unsubscribe_all': 100},
+                        'results_with_2plus_keys_in_one_registry': 200, 'unsubscribe_value': 100, 'unsubscribe_all': 100,
+                        'unsubscribe_with_None_required': 50, 'adapter_mutations_between_subscriptions': 500},
     rule='Random subscribe/unsubscribe histories (duplicates, equal-but-distinct values, handlers, arity 0-3, chains) and '
          'subscriptions() queries compared with a ledger: multiset equality by identity plus pairwise order rules '
          '(base registry first, less specific key first, FIFO for identical keys).  Non-trivial: result with entries from '
